@@ -1,4 +1,5 @@
 import NumbatModel.Lemmas.Qty
+import NumbatModel.Lemmas.QtySimplify
 set_option linter.unusedSectionVars false
 /-!
 # C05 — automatic unit simplification never changes the quantity
@@ -176,5 +177,77 @@ theorem convert_not_simplified (tbl : Table α) (reg : List RegRow) (a b r : Qua
     cases h
     exact ⟨convert_unit' tbl a c b.unit hc, simplifyReg_respects_flag tbl reg _ rfl⟩
   · cases h
+
+/-! ### totality: the `unwrap` of heuristic 3 cannot fail -/
+
+theorem foldl_step_some {σ β : Type} (step : Option σ → β → Option σ) (P : β → Prop)
+    (hstep : ∀ (acc : σ) (g : β), P g → ∃ r, step (some acc) g = some r) :
+    ∀ (gs : List β), (∀ g ∈ gs, P g) → ∀ acc : σ, ∃ r, gs.foldl step (some acc) = some r := by
+  intro gs
+  induction gs with
+  | nil => intro _ acc; exact ⟨acc, rfl⟩
+  | cons g gs ih =>
+    intro h acc
+    simp only [List.foldl_cons]
+    obtain ⟨r, hr⟩ := hstep acc g (h g List.mem_cons_self)
+    rw [hr]
+    exact ih (fun x hx => h x (List.mem_cons_of_mem _ hx)) r
+
+theorem foldl_step_ne_none {σ β : Type} (step : Option σ → β → Option σ) (P : β → Prop)
+    (hstep : ∀ (acc : σ) (g : β), P g → ∃ r, step (some acc) g = some r)
+    (gs : List β) (hP : ∀ g ∈ gs, P g) (acc : σ) : gs.foldl step (some acc) ≠ none := by
+  obtain ⟨r, hr⟩ := foldl_step_some step P hstep gs hP acc
+  rw [hr]; simp
+
+/-- **`full_simplify` is total**: for every unit table whose definitions refer to earlier rows only and whose
+rows have distinct names (both kernel-checked for the regenerated prelude table), the grouped conversion of
+heuristic 3 always succeeds — the `unwrap` in `Quantity::full_simplify` cannot panic.  (Before the repair
+`275b2e3` it could: the exponent of the group was computed from the first factor of the *stored* definition
+instead of the canonical base representation.) -/
+theorem simplify_total (tbl : Table α) (hwf : WF tbl) (hn : NamesDistinct tbl) (q : Quantity α) :
+    ∃ r, fullSimplify tbl q = some r := by
+  unfold fullSimplify
+  split
+  · exact ⟨q, rfl⟩
+  · split
+    · exact ⟨_, rfl⟩
+    · simp only
+      split
+      · exact ⟨_, rfl⟩
+      · -- heuristic 3
+        have hgroups := chunkBy_spec (fun f : Factor => sortKey tbl f.unit) (canon tbl q.unit)
+        split
+        · rename_i hfold
+          exfalso
+          refine foldl_step_ne_none _
+            (fun g : Unit => g ≠ [] ∧ ∀ x ∈ g, ∀ y ∈ g, sortKey tbl x.unit = sortKey tbl y.unit) ?_ _ hgroups (one, []) hfold
+          intro acc g hg
+          obtain ⟨factor, simplified⟩ := acc
+          obtain ⟨rep, hrep, hmem⟩ := maxBy_mem (fun (f1 f2 : Factor) =>
+              if (isBaseUnit tbl f1.unit != isBaseUnit tbl f2.unit) = true then
+                !isBaseUnit tbl f1.unit && isBaseUnit tbl f2.unit
+              else decide (f1.exp ≤ f2.exp)) g hg.1
+          simp only [hrep]
+          have hkey : ∀ f ∈ g, sortKey tbl f.unit = sortKey tbl rep.unit := fun f hf => hg.2 f hf rep hmem
+          obtain ⟨c, hc⟩ := convComplete tbl hn ⟨one, g, true⟩ _ (fun b => h3_target_vec tbl hwf hn g rep hkey b)
+          rw [hc]
+          exact ⟨_, rfl⟩
+        · exact ⟨_, rfl⟩
+
+/-- the registry-based simplification (what the interpreter applies to displayed results) is total too: its only
+`none` is the one of `full_simplify` -/
+theorem simplifyReg_total (tbl : Table α) (hwf : WF tbl) (hn : NamesDistinct tbl) (reg : List RegRow) (q : Quantity α) :
+    ∃ r, fullSimplifyReg tbl reg q = some r := by
+  obtain ⟨s, hs⟩ := simplify_total tbl hwf hn q
+  unfold fullSimplifyReg
+  rw [hs]
+  simp only
+  split
+  · exact ⟨_, rfl⟩
+  · split
+    · exact ⟨_, rfl⟩
+    · split
+      · exact ⟨_, rfl⟩
+      · split <;> exact ⟨_, rfl⟩
 
 end NumbatModel.Qty
